@@ -45,7 +45,7 @@ def np_all(eng, xs):
 
 def setup(eng):
     base_modules(eng)
-    eng.ext_modules["numpy"] = ModuleStub("numpy", {"all": stub(np_all)})
+    eng.ext_modules["numpy"] = ModuleStub("numpy", {"all": stub(np_all), "any": stub(lambda eng, xs: not np_all(eng, [not x for x in (xs.items if isinstance(xs, VList) else xs)]))})
     A = AstFactory(eng)
     return A
 
@@ -419,13 +419,14 @@ def h_variable_kinds(eng):
     out = node.fields["equations"].items
     sem = Sem()
     a, q = sem.var("a.p.w"), sem.var("q.w")
+    emitted = z3.And([sem.eq(e) for e in out]) if out else z3.BoolVal(True)
     if want == "potential":
-        eng.prove("kinds.potential_variables_are_equated", z3.BoolVal(raised is None and len(out) == 1) if len(out) != 1 or raised else
-                  z3.And(z3.Implies(sem.eq(out[0]), a == q), z3.Implies(a == q, sem.eq(out[0]))))
+        ok = raised is None and len(out) >= 1
+        eng.prove("kinds.potential_variables_are_equated", z3.BoolVal(False) if not ok else z3.And(z3.Implies(emitted, a == q), z3.Implies(a == q, emitted)))
     elif want == "flow":
-        ok = raised is None and len(out) == 1
+        ok = raised is None and len(out) >= 1
         eng.prove("kinds.flow_variables_are_balanced_inside_minus_outside", z3.BoolVal(False) if not ok else
-                  z3.And(z3.Implies(sem.eq(out[0]), a - q == 0), z3.Implies(a - q == 0, sem.eq(out[0]))))
+                  z3.And(z3.Implies(emitted, a - q == 0), z3.Implies(a - q == 0, emitted)))
     elif want == "skipped":
         eng.prove("kinds.parameters_and_constants_produce_no_equation", z3.BoolVal(raised is None and len(out) == 0))
     else:
